@@ -77,6 +77,7 @@ def run(ctx):
             p = scopegen.gen_program(rng.fork(), None); tries += 1
         progs.append(p)
     texts = [wrap_single(p) for p in progs]
+    texts += [wrap_single(p) for p in scopegen.sibling_programs() if p["path"][1] == "accepted"]      # sibling scopes re-binding a name
     cdir = os.path.join(common.VERIF, "corpus", PROP)
     corpus = [open(f).read() for f in sorted(glob.glob(os.path.join(cdir, "*.sam")))]
     repo = [open(f).read() for f in sorted(glob.glob(os.path.join(common.REPO, "tests", "*.sam")))]
